@@ -309,7 +309,7 @@ func (r *verifOpaqueReader) RemainingBytes() uint64 { return r.rem }
 // trace context): one header whose value is a long filler with a symbolic tail, next to a small one.
 // Written by the real writer, read back from a stream (whatever RemainingBytes reports) and from a frame.
 func VerifC04_LargeBlock() {
-	size := []int{250, 1010, 1030, 4090, 4100, 70000}[verifParam()]
+	size := []int{250, 1010, 1030, 4090, 4100, 40000}[verifParam()]
 	tail := verifStr(2)
 	big := make([]byte, size)
 	for i := range big {
